@@ -40,6 +40,9 @@ STYLES = {
     "ibu": {"italics": True, "bold": True, "underline": True},
     "cls": {"class": "myclass"},
 }
+# a span that only refers to a class the set defines as italic + bold: WebVTT output resolves the reference and wraps the
+# text in i and b tags (route "vtt" only; what a reference means after a DFXP / SAMI round trip is not part of the property)
+CLASS_REF = {"Cls": ({"class": "EmphasisStyle"}, {"italics": True, "bold": True})}
 PAIRS_QUICK = [("i", "i"), ("i", "b"), ("b", "u"), ("ib", "u"), ("cls", "i"), ("ibu", "i"), ("i", "cls"), ("i", "ib"), ("u", "ibu")]
 # "dfxp-single" / "dfxp-legacy": DFXP written by SinglePositioningDFXPWriter / LegacyDFXPWriter (read by the one DFXP reader)
 # "dfxp-inline": DFXPWriter(write_inline_positioning=True)
@@ -89,6 +92,10 @@ def _layouts(mode):
     return [la, lb]
 
 
+def _sty(st):
+    return dict(CLASS_REF[st][0]) if st in CLASS_REF else dict(STYLES[st])
+
+
 def build(shape, spans, lay=None):
     """spans: [(start_pos, end_pos, style_key)] positions over the atom list (0..len); lay: None | 'same' | 'diff':
     the nodes of span k (its STYLE nodes and what is inside) carry layout k"""
@@ -101,12 +108,12 @@ def build(shape, spans, lay=None):
     for pos in range(len(at) + 1):
         for a, b, st in spans:
             if b == pos and a != pos:
-                nodes.append(CaptionNode.create_style(False, dict(STYLES[st])))
+                nodes.append(CaptionNode.create_style(False, _sty(st)))
         for a, b, st in spans:
             if a == pos:
-                nodes.append(CaptionNode.create_style(True, dict(STYLES[st])))
+                nodes.append(CaptionNode.create_style(True, _sty(st)))
                 if b == pos:
-                    nodes.append(CaptionNode.create_style(False, dict(STYLES[st])))
+                    nodes.append(CaptionNode.create_style(False, _sty(st)))
         if pos < len(at):
             if at[pos][0] == "t":
                 nodes.append(CaptionNode.create_text(at[pos][1]))
@@ -114,6 +121,7 @@ def build(shape, spans, lay=None):
                 nodes.append(CaptionNode.create_break())
     cs = CaptionSet({"en-US": CaptionList([Caption(1000000, 2000000, nodes)])})
     cs.add_style("myclass", {"color": "red"})
+    cs.add_style("EmphasisStyle", {"italics": True, "bold": True})
     return cs
 
 
@@ -133,12 +141,12 @@ def _build_lay(shape, spans, lay):
     for pos in range(len(at) + 1):
         for k, (a, b, st) in enumerate(spans):
             if b == pos and a != pos:
-                nodes.append(CaptionNode.create_style(False, dict(STYLES[st]), layout_info=L[k]))
+                nodes.append(CaptionNode.create_style(False, _sty(st), layout_info=L[k]))
         for k, (a, b, st) in enumerate(spans):
             if a == pos:
-                nodes.append(CaptionNode.create_style(True, dict(STYLES[st]), layout_info=L[k]))
+                nodes.append(CaptionNode.create_style(True, _sty(st), layout_info=L[k]))
                 if b == pos:
-                    nodes.append(CaptionNode.create_style(False, dict(STYLES[st]), layout_info=L[k]))
+                    nodes.append(CaptionNode.create_style(False, _sty(st), layout_info=L[k]))
         if pos < len(at):
             if at[pos][0] == "t":
                 nodes.append(CaptionNode.create_text(at[pos][1], layout_info=lay_at(pos)))
@@ -146,6 +154,7 @@ def _build_lay(shape, spans, lay):
                 nodes.append(CaptionNode.create_break(layout_info=lay_at(pos)))
     cs = CaptionSet({"en-US": CaptionList([Caption(1000000, 2000000, nodes)])})
     cs.add_style("myclass", {"color": "red"})
+    cs.add_style("EmphasisStyle", {"italics": True, "bold": True})
     return cs
 
 
@@ -158,7 +167,7 @@ def expected_flags(shape, spans):
         fl = set()
         for s, e, st in spans:
             if s <= pos < e:
-                fl |= {k for k in ("italics", "bold", "underline") if STYLES[st].get(k)}
+                fl |= {k for k in ("italics", "bold", "underline") if (CLASS_REF[st][1] if st in CLASS_REF else STYLES[st]).get(k)}
         for ch in a[1]:
             out.append((ch, frozenset(fl)))
     return out
@@ -536,6 +545,16 @@ def run_shard(d):
                         acc.violation(f"C11/scc-reader/{kind}", {"route": "scc", "prog": prog, "doubled": doubled}, det)
         return acc.result()
     shape = shapes()[d["shape"]]
+    if d["route"] == "vtt":
+        n = len(atoms(shape))
+        for a in range(n + 1):
+            for b in range(a + 1, n + 1):
+                for extra in [None] + [(c, e, st) for c in range(b, n + 1) for e in range(c + 1, n + 1) for st in ("i", "u")]:
+                    spans = [(a, b, "Cls")] + ([extra] if extra else [])
+                    v, out = run_route("vtt", shape, spans, None)
+                    acc.case((shape, spans, "vtt", "class-ref"), True, out, {"lines": shape, "spans(start,end,style)": spans, "route": "vtt", "class_reference": "EmphasisStyle = italics + bold"})
+                    for kind, det in v:
+                        acc.violation(f"C11/vtt/{kind}/class-reference", {"shape": shape, "spans": spans, "route": "vtt", "lay": None}, det)
     for i, spans in enumerate(span_sets(shape, d["tier"])):
         if i % d["nparts"] != d["part"]:
             continue
@@ -569,4 +588,5 @@ def replay(case):
     spans = [tuple(s) for s in case["spans"]]
     lay = case.get("lay")
     v, _ = run_route(case["route"], shape, spans, lay)
-    return [{"sig": f"C11/{case['route']}/{k}/{placement_class(shape, spans)}" + (f"/layouts-{lay}" if lay else ""), "detail": det} for k, det in v]
+    klass = "class-reference" if any(st in CLASS_REF for _a, _b, st in spans) else placement_class(shape, spans)
+    return [{"sig": f"C11/{case['route']}/{k}/{klass}" + (f"/layouts-{lay}" if lay else ""), "detail": det} for k, det in v]
